@@ -1165,6 +1165,23 @@ func c18GenScenario(r *Run) c18Scn {
 				b = append(b, x)
 			}
 		}
+		// The model passes "the reconnect is dirty" up as a result, the
+		// real client keeps ONE shared flag that the innermost running
+		// HandleServerShutdown consumes; the two agree as long as no
+		// further fault follows an okShut in the same script (a fault
+		// after it starts an inner reconnect that consumes the flag the
+		// outer one would have restarted for – same end state, one
+		// reconnect less). Keep okShut followed by fault-free behaviours
+		// (more okShut allowed).
+		seen := false
+		for i := range b {
+			if seen && b[i] != c18BehOK && b[i] != c18BehOkShut {
+				b[i] = c18BehOK
+			}
+			if b[i] == c18BehOkShut {
+				seen = true
+			}
+		}
 		return b
 	}
 	refuse := func() int {
